@@ -19,6 +19,7 @@ from __future__ import annotations
 
 import ast
 import inspect
+import os
 import textwrap
 
 import z3
@@ -84,7 +85,7 @@ class LoopVC:
         self.firstline = self.func.__code__.co_firstlineno
 
     def where(self, n):
-        return f"{self.filename.replace('/repo/', '')}:{self.firstline + getattr(n, 'lineno', 1) - 1}"
+        return f"{self.filename.replace(os.environ.get('VERIF_REPO', '/repo') + '/', '')}:{self.firstline + getattr(n, 'lineno', 1) - 1}"
 
     # ---------------------------------------------------------------- structure
     def split(self):
